@@ -22,6 +22,9 @@ def slit(s):
 
 
 def anchors(a: Anchors):
+    a.state("molecules_store_only_pos_rot_features", "acryo/molecules/core.py",
+            {"Molecules": ["_pos", "_rotator", "_features", "features", "class:groupby"]},
+            "a Molecules object stores positions, rotator and feature table and nothing derived from them (no memo that could go stale)")
     def csv_cols(tree, src):
         for n in ast.walk(tree):
             if isinstance(n, ast.Assign) and ast.unparse(n.targets[0]) == "_CSV_COLUMNS":
